@@ -380,7 +380,7 @@ structure St where
   out : List (Nat × Nat × Val)
   deriving Repr
 
-/-- one event of the `next_cell` machinery -/
+/-- one event of the `next_cell` machinery (`row_index`/`col_index` advance with `saturating_add`) -/
 def step (cfg : Cfg) (st : St) (ev : Ev) : Res St :=
   match st.mode with
   | .done => .ok st
@@ -408,7 +408,7 @@ def step (cfg : Cfg) (st : St) (ev : Ev) : Res St :=
       else .ok st
     | .stop n =>
       if localName n = nRow then
-        (if st.row + 1 ≥ U32 then .panic "u32 add overflow" else .ok { st with row := st.row + 1, col := 0 })
+        .ok { st with row := satAdd st.row 1, col := 0 }
       else if localName n = nSheetData then .ok { st with mode := .done }
       else .ok st
     | _ => .ok st
@@ -421,8 +421,7 @@ def step (cfg : Cfg) (st : St) (ev : Ev) : Res St :=
       else .err "UnexpectedNode"
     | .stop n =>
       if localName n = nC then
-        (if st.col + 1 ≥ U32 then .panic "u32 add overflow"
-         else .ok { st with mode := .rows, col := st.col + 1, out := (pos.1, pos.2, value) :: st.out })
+        .ok { st with mode := .rows, col := satAdd st.col 1, out := (pos.1, pos.2, value) :: st.out }
       else .ok st
     | _ => .ok st
   | .inV pos cattrs vname acc =>
